@@ -89,18 +89,20 @@ func builtinNumberToFixed(call FunctionCall) Value {
 func builtinNumberToExponential(call FunctionCall) Value {
 	// Will throw a TypeError if ThisObject is not a Number
 	this := call.thisClassObject(classNumberName).primitiveValue()
+	// ES5 15.7.4.6 step 2: fractionDigits is converted before NaN and Infinity are handled.
+	precision := float64(-1)
+	fractionDigits := call.Argument(0)
+	if fractionDigits.IsDefined() {
+		precision = toIntegerFloat(fractionDigits)
+	}
 	if this.IsNaN() {
 		return stringValue("NaN")
 	}
 	if infinity := this.float64(); math.IsInf(infinity, 0) {
 		return stringValue(floatToString(infinity, 64))
 	}
-	precision := float64(-1)
-	if value := call.Argument(0); value.IsDefined() {
-		precision = toIntegerFloat(value)
-		if 0 > precision || 20 < precision {
-			panic(call.runtime.panicRangeError("toExponential() precision must be between 0 and 20"))
-		}
+	if fractionDigits.IsDefined() && (0 > precision || 20 < precision) {
+		panic(call.runtime.panicRangeError("toExponential() precision must be between 0 and 20"))
 	}
 	value := this.float64()
 	if value == 0 {
@@ -127,17 +129,18 @@ func builtinNumberToExponential(call FunctionCall) Value {
 func builtinNumberToPrecision(call FunctionCall) Value {
 	// Will throw a TypeError if ThisObject is not a Number
 	this := call.thisClassObject(classNumberName).primitiveValue()
-	if this.IsNaN() {
-		return stringValue("NaN")
-	}
 	value := call.Argument(0)
 	if value.IsUndefined() {
 		return stringValue(this.string())
 	}
+	// ES5 15.7.4.7 step 3: precision is converted before NaN and Infinity are handled.
+	precision := toIntegerFloat(value)
+	if this.IsNaN() {
+		return stringValue("NaN")
+	}
 	if infinity := this.float64(); math.IsInf(infinity, 0) {
 		return stringValue(floatToString(infinity, 64))
 	}
-	precision := toIntegerFloat(value)
 	if 1 > precision || 21 < precision {
 		panic(call.runtime.panicRangeError("toPrecision() precision must be between 1 and 21"))
 	}
